@@ -23,6 +23,26 @@ def val_float(v):
     return math.ldexp(v[1], v[2])
 
 
+def mbf_bytes(v):
+    """Microsoft Binary Format bytes of ['!'|'#', mant, exp2] (exact; the value must be representable)."""
+    nb = 56 if v[0] == '#' else 24
+    M, e = v[1], v[2]
+    if M == 0:
+        return bytes(nb // 8 + 1)
+    neg = M < 0
+    M = abs(M)
+    while M < (1 << (nb - 1)):
+        M <<= 1
+        e -= 1
+    E = e + nb + 128
+    if M >= (1 << nb) or not 1 <= E <= 255:
+        raise ValueError('not representable: %r' % (v,))
+    b = bytearray((M - (1 << (nb - 1))).to_bytes(nb // 8, 'little'))
+    if neg:
+        b[-1] |= 0x80
+    return bytes(b) + bytes([E])
+
+
 def single_of(x):
     """['!', mant, exp2] of the single nearest to the python float / Fraction x."""
     x = Fraction(x)
@@ -171,22 +191,22 @@ class Mismatch(Exception):
     pass
 
 
-def check_number_piece(spec, v, data, pos, next_lit):
-    """Check the output of one numeric field at data[pos:]; return (new position, exactness flag).
+def check_number_piece(spec, v, data, pos):
+    """Check the output of one numeric field at data[pos:]; return (new position, kind of digit check).
     Direct reading of the property: width or %-overflow, sign/$/fill/comma/exponent placement, digits =
     the value rounded at the field's last decimal (exactly for values with a short exact expansion,
     within one unit of the 7th/16th significant digit otherwise)."""
     q = val_fraction(v)
     neg = q < 0
     q = abs(q)
+    zero = (q == 0)
     dbl = v[0] == '#'
     prec = 16 if dbl else 7
     W = spec.width
     overflow = data[pos:pos + 1] == b'%'
     # the text of the number: [sign][$]digits[.digits][E+dd][sign]
     if spec.lead_plus:
-        lead = b'-' if neg else b'+'
-        post = b''
+        lead, post = (b'-' if neg else b'+'), b''
     elif spec.trail == b'+':
         lead, post = b'', (b'-' if neg else b'+')
     elif spec.trail == b'-':
@@ -195,75 +215,83 @@ def check_number_piece(spec, v, data, pos, next_lit):
         lead, post = (b'-' if neg else b''), b''
     dollar = b'$' if spec.dollar else b''
     if overflow:
-        body_re = rb'%' + re.escape(lead + dollar)
+        head_re = rb'%' + re.escape(lead + dollar)
     else:
-        fill = b'\\*' if spec.star else b' '
-        body_re = rb'(?:' + fill + rb')*' + re.escape(lead + dollar)
+        head_re = (rb'\**' if spec.star else rb' *') + re.escape(lead + dollar)
+    letter = b'D' if dbl else b'E'
     if spec.exp:
         db = spec.before if (spec.lead_plus or spec.trail or spec.dollar) else max(0, spec.before - 1)
         da = spec.decimals
-        num_re = rb'([0-9]*)(\.?)([0-9]*)([ED])([+-])([0-9]{2,})'
-    else:
-        num_re = rb'([0-9,]*)(\.?)([0-9]*)'
-    mo = re.compile(body_re + num_re + re.escape(post)).match(data, pos)
-    if not mo:
-        raise Mismatch('field %r value %s: output %r does not have the shape [fill][sign][$]digits[exponent][sign]'
-                       % (spec.text, q, data[pos:pos + W + 4]))
-    end = mo.end()
-    if overflow:
-        if end - pos - 1 <= W:
-            raise Mismatch('field %r: %% overflow mark but the number %r fits the field' % (spec.text, mo.group(0)))
-        if not spec.exp and not mo.group(2) and not post and next_lit[:1] and next_lit[:1] in b'0123456789,':
-            return None, None      # cannot delimit an overflowing integer followed by a digit literal
-    else:
-        if end - pos > W:
-            # the regex ran into following literal text: cut at the field width
-            mo = re.compile(body_re + num_re + re.escape(post) + rb'$').match(data[:pos + W], pos)
-            if not mo:
-                raise Mismatch('field %r value %s: output %r is not %d characters of number text'
-                               % (spec.text, q, data[pos:pos + W], W))
-            end = mo.end()
-        if end - pos != W:
-            raise Mismatch('field %r value %s: wrote %d characters %r, declared width %d'
-                           % (spec.text, q, end - pos, data[pos:end], W))
-    ip, dotch, fp = mo.group(1), mo.group(2), mo.group(3)
-    zero = (q == 0)
-    if spec.exp:
-        letter, esign, edig = mo.group(4), mo.group(5), mo.group(6)
-        if letter != (b'D' if dbl else b'E'):
-            raise Mismatch('field %r: exponent letter %r for a %s' % (spec.text, letter, 'double' if dbl else 'single'))
-        if len(edig) != 2 and int(edig) < 100:
-            raise Mismatch('field %r: exponent %r is not two digits' % (spec.text, edig))
-        expo = int(edig) * (-1 if esign == b'-' else 1)
         if zero:
-            if int(ip + fp or b'0') != 0 or expo != 0:
-                raise Mismatch('field %r: zero printed as %r' % (spec.text, mo.group(0)))
-            return end, 'zero'
-        if len(fp) != da or (da > 0 and not dotch) or (spec.dot and not dotch):
-            raise Mismatch('field %r: %r has not %d decimals / decimal point' % (spec.text, mo.group(0), da))
-        if len(ip) != db:
-            raise Mismatch('field %r: %r has %d digits before the point, field gives %d'
-                           % (spec.text, mo.group(0), len(ip), db))
-        if db + da == 0:
-            # no digit positions: only the exponent is shown (value = 0.d * 10^expo)
-            if expo not in (floor_log10(q) + 1, floor_log10(q) + 2):
-                raise Mismatch('field %r value %s: exponent %d' % (spec.text, q, expo))
-            return end, 'nodigits'
-        if (ip + fp)[:1] == b'0':
-            raise Mismatch('field %r value %s: mantissa %r not normalised' % (spec.text, q, mo.group(0)))
-        unit = Fraction(10) ** (expo - da)
-        shown = int(ip + fp) * unit
-        nshown = db + da
+            # GW prints E+00 / 0D+00 / .000E+00 for zero
+            num_res = [rb'([0.]*)()()' + letter + rb'(\+)(00)']
+        else:
+            int_re = rb'(0?)' if db == 0 else rb'([0-9]{%d})' % db
+            frac_re = (rb'(\.)([0-9]{%d})' % da) if (da > 0 or spec.dot) else rb'()()'
+            num_res = [int_re + frac_re + letter + rb'([+-])([0-9]{2})']
     else:
-        if zero and not overflow:
-            pass
-        if (b',' in ip) != (spec.comma and len(ip.replace(b',', b'')) > 3):
-            raise Mismatch('field %r: thousands separators in %r' % (spec.text, mo.group(0)))
+        frac_re = (rb'(\.)([0-9]{%d})' % spec.decimals) if spec.dot else rb'()()'
+        if overflow and not spec.dot and not post:
+            # nothing delimits the integer digits: their number follows from the value (+-1 for rounding)
+            nd0 = len(str(round_half_up(q)))
+            num_res = []
+            for nd in (nd0, nd0 + 1, nd0 - 1):
+                if nd >= 1:
+                    num_res.append((rb'([0-9,]{%d})' % (nd + ((nd - 1) // 3 if spec.comma else 0))) + frac_re)
+        else:
+            num_res = [rb'([0-9,]*)' + frac_re]
+    first_error = None
+    for num_re in num_res:
+        try:
+            return _check_piece(spec, q, zero, dbl, prec, W, overflow, data, pos,
+                                re.compile(head_re + num_re + re.escape(post)))
+        except Mismatch as e:
+            first_error = first_error or e
+    raise first_error
+
+
+def _check_piece(spec, q, zero, dbl, prec, W, overflow, data, pos, rx):
+    if overflow:
+        mo = rx.match(data, pos)
+    else:
+        mo = rx.fullmatch(data, pos, min(len(data), pos + W))
+    if not mo:
+        raise Mismatch('field %r value %s: output %r is not %s of the shape [fill][sign][$]digits[exponent][sign]'
+                       % (spec.text, float(q), data[pos:pos + W + 6],
+                          'a %-overflow' if overflow else 'exactly %d characters' % W))
+    end = mo.end()
+    if overflow and end - pos - 1 <= W:
+        raise Mismatch('field %r: %% overflow mark but the number %r fits the field' % (spec.text, mo.group(0)))
+    if not overflow and end - pos != W:
+        raise Mismatch('field %r value %s: wrote %d characters %r, declared width %d'
+                       % (spec.text, float(q), end - pos, data[pos:end], W))
+    ip, dotch, fp = mo.group(1), mo.group(2), mo.group(3)
+    if spec.exp:
+        if zero:
+            return end, 'zero'
+        expo = int(mo.group(5)) * (-1 if mo.group(4) == b'-' else 1)
+        db = spec.before if (spec.lead_plus or spec.trail or spec.dollar) else max(0, spec.before - 1)
+        da = len(fp)
+        digits = (ip if db else b'') + fp
+        if not digits:
+            # no digit positions: only the exponent is shown (value = 0.d * 10^expo)
+            if expo != floor_log10(q) + 1:
+                raise Mismatch('field %r value %s: exponent %d' % (spec.text, float(q), expo))
+            return end, 'nodigits'
+        if digits[:1] == b'0':
+            raise Mismatch('field %r value %s: mantissa %r not normalised' % (spec.text, float(q), mo.group(0)))
+        unit = Fraction(10) ** (expo - da)
+        shown = int(digits) * unit
+        nshown = len(digits)
+    else:
         digits = ip.replace(b',', b'')
-        if b',' in ip and ip != group3(digits):
-            raise Mismatch('field %r: commas not every three digits in %r' % (spec.text, mo.group(0)))
-        if len(fp) != spec.decimals or (spec.dot and not dotch) or (dotch and not spec.dot):
-            raise Mismatch('field %r: %r has not %d decimals / decimal point' % (spec.text, mo.group(0), spec.decimals))
+        if b',' in ip:
+            if not spec.comma:
+                raise Mismatch('field %r: thousands separators in %r' % (spec.text, mo.group(0)))
+            if ip != group3(digits):
+                raise Mismatch('field %r: commas not every three digits in %r' % (spec.text, mo.group(0)))
+        elif spec.comma and len(digits) > 3:
+            raise Mismatch('field %r: no thousands separators in %r' % (spec.text, mo.group(0)))
         if len(digits) > 1 and digits[:1] == b'0':
             raise Mismatch('field %r: leading zeros in %r' % (spec.text, mo.group(0)))
         if not digits and not fp:
@@ -272,12 +300,12 @@ def check_number_piece(spec, v, data, pos, next_lit):
         shown = int(digits + fp or b'0') * unit
         nshown = None
     # ---- digits: the value rounded at `unit`
-    exact = round_half_up(q / unit) * unit
-    nsig = sig_digits(q)
     if zero:
         if shown != 0:
             raise Mismatch('field %r: zero printed as %r' % (spec.text, mo.group(0)))
         return end, 'zero'
+    exact = round_half_up(q / unit) * unit
+    nsig = sig_digits(q)
     lead_unit = Fraction(10) ** (floor_log10(q) - (prec - 1))      # one unit of the last significant digit
     if nsig is not None and nsig <= prec - 1 and (nshown is None or nshown <= prec):
         # short exact decimal expansion: the rounding must be exact (halves away from zero)
@@ -341,11 +369,7 @@ def ref_check(fmt, vals, trailing, status, code, data):
             expect(want, 'string field %r with %r' % (w, s))
             stats['str'] = stats.get('str', 0) + 1
         else:
-            newpos, kind = check_number_piece(it[1], v, data, pos, lits)
-            if newpos is None:
-                stats['undelimited'] = 1
-                return stats
-            pos = newpos
+            pos, kind = check_number_piece(it[1], v, data, pos)
             stats[kind] = stats.get(kind, 0) + 1
         expect(lits, 'literal text after field %d' % k)
         k = (k + 1) % len(segs)
@@ -361,6 +385,25 @@ def ref_check(fmt, vals, trailing, status, code, data):
 
 class Refused(Exception):
     pass
+
+
+def pack(data):
+    """compact canonical encoding of a byte string: length, then 7 bytes per integer (big-endian)"""
+    data = bytes(data)
+    return [len(data)] + [int.from_bytes(data[i:i + 7], 'big') for i in range(0, len(data), 7)]
+
+
+def unpack(ints):
+    n = ints[0]
+    out = b''
+    for i, x in enumerate(ints[1:]):
+        k = min(7, n - 7 * i)
+        out += x.to_bytes(k, 'big')
+    return out
+
+
+def hexs(b):
+    return '(hexz "%s"%%string)' % bytes(b).hex()
 
 
 FIELD_ALPHABET = b'#.,+-$*^!&\\ _%0aE'
@@ -721,10 +764,11 @@ class C08(core.Check):
                 s.set_variable(nm, v[1])
             else:
                 nm = 'V%d%s' % (i, v[0])
-                f = val_float(v)
-                s.set_variable(nm, f)
-                if s.get_variable(nm) != f:
+                # exact MBF bytes (Session.set_variable goes through a lossy float conversion)
+                x = s._impl.values.from_bytes(mbf_bytes(v))
+                if Fraction(x.to_value()) != val_fraction(v):
                     raise Refused('value %r is not stored exactly' % (v,))
+                s._impl.memory.set_variable(nm.encode(), [], x)
             names.append(nm)
         args = case['sep'].join(names) + (case['sep'] if case['t'] else '')
         if case['dev'] == 'file':
@@ -745,8 +789,8 @@ class C08(core.Check):
             if err is None and case['t']:
                 s.execute('PRINT')
         if err is not None:
-            return [1, err] + list(data)
-        return [0, 0] + list(data)
+            return [1, err] + pack(data)
+        return [0, 0] + pack(data)
 
     # ------------------------------------------------------------------ model
     _vsess = None
@@ -761,11 +805,12 @@ class C08(core.Check):
         if key not in self._tabs:
             if self._vsess is None:
                 self._vsess = common.new_session()
+                self._vsess.start()
             vals = self._vsess._impl.values
             if v[0] == '%':
                 x = vals.from_value(v[1], b'%').to_float()
             else:
-                x = vals.from_value(val_float(v), v[0].encode())
+                x = vals.from_bytes(mbf_bytes(v))
             neg, zero = bool(x.is_negative()), bool(x.is_zero())
             dbl = x.sigil == b'#'
             a = x.clone().iabs()
@@ -773,30 +818,47 @@ class C08(core.Check):
             self._tabs[key] = (neg, zero, dbl, tab)
         return self._tabs[key]
 
-    def _coq_val(self, v):
+    @staticmethod
+    def _needed(specs, dbl, tab):
+        """the precisions at which the fields of the format can ask to_decimal for this value (only these
+        entries are passed to keep the Coq literals small; a missing entry makes the model answer Host)"""
+        digits = 16 if dbl else 7
+        need = set()
+        for sp in specs:
+            if sp.exp:
+                for db in (sp.before, max(0, sp.before - 1)):
+                    need.add(max(0, min(digits, db + sp.decimals)))
+            else:
+                need.add(digits)
+                n_after = -tab[digits][1]
+                if n_after > sp.decimals:
+                    need.add(max(0, min(digits, digits - (n_after - sp.decimals))))
+        return sorted(need)
+
+    def _coq_val(self, v, specs):
         if v[0] == '$':
-            return '(UStr %s)' % core.zl(v[1])
+            return '(UStr %s)' % hexs(v[1])
         neg, zero, dbl, tab = self._table(v)
         z = lambda n: '(%d)' % n if n < 0 else '%d' % n
         b = lambda x: 'true' if x else 'false'
-        return '(UNum (mkNV %s %s %s [%s]))' % (b(neg), b(zero), b(dbl),
-                                                ';'.join('(%s,%s)' % (z(m), z(e)) for m, e in tab))
+        ent = [] if zero else ['(%d,(%s,%s))' % (n, z(tab[n][0]), z(tab[n][1])) for n in self._needed(specs, dbl, tab)]
+        return '(UNum (mkNV %s %s %s [%s]))' % (b(neg), b(zero), b(dbl), ';'.join(ent))
 
     def model_term(self, case):
-        vals = '[' + ';'.join(self._coq_val(v) for v in case['v']) + ']'
-        nl = '[13;10]' if case['dev'] == 'file' else '[13;10]'
-        return '(enc_stream %s (print_using %s %s %s))' % (nl, core.zl(case['f']), vals,
-                                                          'true' if case['t'] else 'false')
+        specs = [it[1] for it in ref_items(bytes(case['f'])) if it[0] == 'num']
+        vals = '[' + ';'.join(self._coq_val(v, specs) for v in case['v']) + ']'
+        return '(enc_stream [13;10] (print_using %s %s %s))' % (hexs(case['f']), vals,
+                                                                'true' if case['t'] else 'false')
 
     # ------------------------------------------------------------------ oracle
     def nontrivial(self, case, out):
-        return out[0] == 0 and len(out) > 2
+        return out[0] == 0 and out[2] > 0
 
     def oracle(self, case, out):
         if out[0] == 2:
             return 'host exception class %d escaped PRINT USING' % out[1]
         try:
-            stats = ref_check(bytes(case['f']), case['v'], bool(case['t']), out[0], out[1], bytes(out[2:]))
+            stats = ref_check(bytes(case['f']), case['v'], bool(case['t']), out[0], out[1], unpack(out[2:]))
         except Mismatch as e:
             return str(e)
         oh = getattr(self, '_ohist', None)
